@@ -10,11 +10,17 @@
 (*      bridge-mint tags use withUniqueEventOverwrite: of the events with  *)
 (*      one index (ethereum address / burner / minting client) only the    *)
 (*      last survives.  "append" keeps all.                                *)
-(*   TicketStore = "first": the TagAddBurnTicket handler stores bt[0]      *)
+(*      This is the code as written (recorded as a known finding).         *)
+(*   TicketStore = "first": the TagAddBurnTicket handler stored bt[0]      *)
 (*      only (the merged list is built from a Go map: any element).        *)
-(*   MintKey = "to": updateAuthorizersTotalMint keys the update by         *)
+(*   MintKey = "to": updateAuthorizersTotalMint keyed the update by        *)
 (*      state.Mint.ToClientID, which the handler leaves empty (it fills    *)
-(*      Minter): no authorizer row matches.  "minter" keys by the signer.  *)
+(*      Minter): no authorizer row matched.  "minter" keys by the signer.  *)
+(*      Both were found by this check and repaired in /repo ("fix: store   *)
+(*      every burn ticket of a merged event, not only the first", "fix:    *)
+(*      credit bridge mint totals to the signing authorizer"); the configs *)
+(*      of the code as written run with "all" / "minter", the former       *)
+(*      values document the old behaviour (MC_EventDB_former.cfg).         *)
 (* Stake-pool reward events are merged by summation per provider.          *)
 (***************************************************************************)
 EXTENDS EventDBDefs, TLC
@@ -84,6 +90,9 @@ C20_BurnTotals == phase = "stored" => BurnTotals(B)
 C20_MintTotals == phase = "stored" => MintTotals(B)
 (* the code as written *)
 C20w_MergeKeepsLast == phase \in {"merged", "stored"} => MergeKeepsLast(B)
+C20w_StoresAllMerged == phase = "stored" => StoresAllMerged(B)
+C20w_MintTotalsOfMerged == phase = "stored" => MintTotalsOfMerged(B)
+(* the former handlers *)
 C20w_StoresOneTicket == phase = "stored" => StoresOneTicket(B)
 C20w_BurnTotalsOfMerged == phase = "stored" => BurnTotalsOfMerged(B)
 C20w_NoMintTotals == phase = "stored" => B.dMint = <<>>
